@@ -44,3 +44,52 @@ contract(F + "MathMixin.consolidate_results", props=["C04", "C01", "C11"],
                    "is_list(results) and len(results) == old(len(results))",
                    "forall(range(len(results)), lambda i: same(results[i], old(results[i])) and entry_shape(results[i]) and same(results[i]['ok'], old(results[i]['ok'])) and same(results[i]['grade_decimal'], old(results[i]['grade_decimal'])))"])},
     covers=["len(results) == 3 and failable_evals == 1"])
+
+
+# ---------------------------------------------------------------------------------------------- restrictions on student formulas (C09)
+contract(F + "validate_required_functions_used", props=["C09"],
+    requires=["is_set(used_funcs) or is_dict(used_funcs)", "is_seq(required_funcs)"],
+    exsures={"InvalidInput": "exists(range(len(required_funcs)), lambda i: not (required_funcs[i] in used_funcs))"},
+    ensures=["same(result, True)", "forall(range(len(required_funcs)), lambda i: required_funcs[i] in used_funcs)"],
+    modifies=[],
+    loops={"for func in required_funcs": dict(invariant=["forall(range(0, K), lambda i: required_funcs[i] in used_funcs)"])})
+
+
+@spec
+def hits(expression, forbidden):
+    # a forbidden string occurs in an expression, compared ignoring spaces (literally spaces, not tabs)
+    return str_replace(forbidden, ' ', '') in str_replace(expression, ' ', '')
+
+
+contract(F + "validate_forbidden_strings_not_used", props=["C09"],
+    requires=["is_list(expr) and forall(range(len(expr)), lambda i: is_str(expr[i]))",
+              "is_seq(forbidden_strings) and forall(range(len(forbidden_strings)), lambda j: is_str(forbidden_strings[j]))", "is_str(forbidden_msg)"],
+    exsures={"InvalidInput": "msg_of(exc) == forbidden_msg and exists(range(len(expr)), lambda i: exists(range(len(forbidden_strings)), lambda j: hits(expr[i], forbidden_strings[j])))"},
+    ensures=["same(result, True)",
+             "forall(range(len(expr)), lambda i: forall(range(len(forbidden_strings)), lambda j: not hits(expr[i], forbidden_strings[j])))"],
+    modifies=[],
+    loops={"for expression in expr": dict(invariant=[
+               "forall(range(0, K), lambda i: forall(range(len(forbidden_strings)), lambda j: not hits(expr[i], forbidden_strings[j])))"]),
+           "for forbidden in forbidden_strings": dict(invariant=[
+               "is_str(stripped_expr) and stripped_expr == str_replace(expression, ' ', '')",
+               "forall(range(0, K), lambda j: not hits(expression, forbidden_strings[j]))"])},
+    note="list form (a single string is wrapped into a list, a dict contributes its values: those two conversions are covered by the bounded tier)")
+
+RAW_CHECK = dict(params=['answer_arg', 'input_arg'],
+                 ensures=["is_tuple(result) and fresh(result) and len(result) == 2", "is_dict(result[0]) and has_keys(result[0], 'ok', 'grade_decimal', 'msg')",
+                          "implies(result[0]['grade_decimal'] > 0, same(result[0]['ok'], True) or same(result[0]['ok'], 'partial'))"],
+                 exsures={"*": "True"}, modifies=[],
+                 note="raw_check returns (result entry, used functions); a result with positive credit has ok True or 'partial' (consolidate_results contract, A17)")
+POST_EVAL = dict(params=['expr_arg', 'used_arg'],
+                 ensures=["not upred('RESTRICTED', self, expr_arg, used_arg)"],
+                 exsures={"InvalidInput": "upred('RESTRICTED', self, expr_arg, used_arg)"}, modifies=[],
+                 note="post_eval_validation returns iff no forbidden string is used, every required function is used and only permitted functions are used (contracts of the three validators)")
+
+contract(F + "MathMixin.check_math_response", props=["C09"],
+    requires=["is_object(self)", "is_dict(kwargs)"],
+    callees={"self.raw_check": RAW_CHECK, "self.post_eval_validation": POST_EVAL},
+    exsures={"*": "True"},
+    # credit is never returned for an input that violates a restriction: whenever the verdict is True or 'partial' (hence whenever credit > 0)
+    # the post-evaluation validation has run on this very input and its used functions, and did not object
+    ensures=["implies(same(result['ok'], True) or same(result['ok'], 'partial') or result['grade_decimal'] > 0, not upred('RESTRICTED', self, student_input, used_funcs))"],
+    modifies=[])
